@@ -2,10 +2,12 @@ package props
 
 import (
 	"context"
+	"encoding/json"
 	"fmt"
+	"os"
+	"path/filepath"
 	"sort"
 	"strings"
-	"time"
 
 	"github.com/regclient/regclient"
 	"github.com/regclient/regclient/internal/verif/core"
@@ -13,20 +15,84 @@ import (
 	"github.com/regclient/regclient/internal/verif/oracle"
 	"github.com/regclient/regclient/internal/verif/regmodel"
 	"github.com/regclient/regclient/internal/verif/simnet"
+	"github.com/regclient/regclient/internal/verif/simos"
 	"github.com/regclient/regclient/internal/verif/simrt"
 	"github.com/regclient/regclient/scheme"
 	"github.com/regclient/regclient/types/descriptor"
 	"github.com/regclient/regclient/types/ref"
 )
 
-// One generated ImageCopy scenario over registry models, shared by C03
-// (complete copy), C04 (ordering, failure never moves the tag) and C14
-// (transfers only what the target lacks).
+// One generated ImageCopy scenario, shared by C03 (complete copy), C04
+// (ordering, failure never moves the tag) and C14 (transfers only what the
+// target lacks). Endpoints are registry models or OCI layout directories.
+
+type endpoint struct {
+	reg  *regmodel.Reg // nil: layout
+	repo string
+	dir  string
+}
+
+func (ep *endpoint) isLayout() bool { return ep.reg == nil }
+func (ep *endpoint) store() oracle.Store {
+	if ep.isLayout() {
+		return oracle.LayoutStore{Dir: ep.dir}
+	}
+	return oracle.RegStore{Reg: ep.reg, Repo: ep.repo}
+}
+func (ep *endpoint) refStr(tag string) string {
+	if ep.isLayout() {
+		return "ocidir://" + ep.dir + ":" + tag
+	}
+	return ep.reg.Name + "/" + ep.repo + ":" + tag
+}
+func (ep *endpoint) install(gr *gen.Graph, tag string, plain bool) {
+	if ep.isLayout() {
+		if err := gr.InstallLayout(ep.dir, tag, plain); err != nil {
+			panic(err)
+		}
+		return
+	}
+	if plain {
+		gr.InstallPlain(ep.reg, ep.repo, tag)
+	} else {
+		gr.Install(ep.reg, ep.repo, tag)
+	}
+}
+func (ep *endpoint) putBlob(d string, data []byte) {
+	if ep.isLayout() {
+		if err := gen.LayoutFile(ep.dir, d, data); err != nil {
+			panic(err)
+		}
+		_ = gen.LayoutSetTags(ep.dir, nil)
+		return
+	}
+	ep.reg.Repo(ep.repo).Blobs[d] = data
+}
+func (ep *endpoint) putManifest(n *gen.Node) {
+	if ep.isLayout() {
+		if err := gen.LayoutFile(ep.dir, n.Digest, n.Raw); err != nil {
+			panic(err)
+		}
+		_ = gen.LayoutSetTags(ep.dir, nil)
+		return
+	}
+	ep.reg.Repo(ep.repo).Manifests[n.Digest] = &regmodel.Manifest{MediaType: n.MediaType, Raw: n.Raw}
+}
+
+// wev is a write that reached the target, from the registry journal or the disk seam.
+type wev struct {
+	Seq    int    // request number (registry) or mutating-call number (layout)
+	Kind   string // blob, manifest, tag, mount, del-*, other
+	Digest string
+	Tag    string
+}
 
 type copyCase struct {
 	w        *World
 	gr       *gen.Graph
-	src, tgt *regmodel.Reg
+	srcEP    *endpoint
+	tgtEP    *endpoint
+	src, tgt *regmodel.Reg // nil for layouts
 	srcRepo  string
 	tgtRepo  string
 	tag      string
@@ -44,6 +110,10 @@ type copyCase struct {
 	ext     *extHost
 	defaultOpts bool
 	includeExt  bool
+	disk        *simos.Disk
+	// observation of target writes (set up by watch)
+	writes      []wev
+	onManifest  func(seq int, dig string, raw []byte)
 }
 
 // extHost serves external layer URLs.
@@ -67,7 +137,7 @@ func (x *extHost) Serve(req *simnet.Request) *simnet.Response {
 
 type copyGenOpts struct {
 	defaultOptsOnly bool // C14: default options
-	regKnobs        bool
+	noLayouts       bool
 }
 
 func genCopyCase(e *core.Env, o copyGenOpts) *copyCase {
@@ -77,9 +147,19 @@ func genCopyCase(e *core.Env, o copyGenOpts) *copyCase {
 	if e.Choose("gen", 8, "alg") == 7 {
 		g.Alg = "sha512"
 	}
-	c.gr = g.Graph(gen.Opts{})
 	// topology
-	switch e.Choose("gen", 4, "pairing") {
+	np := 7
+	if o.noLayouts {
+		np = 4
+	}
+	pair := e.Choose("gen", np, "pairing")
+	if pair >= 5 {
+		// a layout source has no way to serve a layer it does not host (no URL fall-back in ocidir):
+		// images with external layers are only generated for registry sources
+		g.NoExt = true
+	}
+	c.gr = g.Graph(gen.Opts{})
+	switch pair {
 	case 0:
 		c.pairing = "two-registries"
 		c.src, c.tgt = w.AddReg("src.test"), w.AddReg("tgt.test")
@@ -95,9 +175,34 @@ func genCopyCase(e *core.Env, o copyGenOpts) *copyCase {
 		c.tgt = c.src
 		c.srcRepo, c.tgtRepo = "proj/app", "proj/app"
 		c.tgtTag = "v2"
+	case 4:
+		c.pairing = "registry-to-layout"
+		c.src = w.AddReg("src.test")
+		c.srcRepo = "proj/app"
+	case 5:
+		c.pairing = "layout-to-registry"
+		c.tgt = w.AddReg("tgt.test")
+		c.tgtRepo = "mirror/app"
+	case 6:
+		c.pairing = "layout-to-layout"
+	}
+	if c.src != nil {
+		c.srcEP = &endpoint{reg: c.src, repo: c.srcRepo}
+	} else {
+		c.srcEP = &endpoint{dir: e.TempDir()}
+	}
+	if c.tgt != nil {
+		c.tgtEP = &endpoint{reg: c.tgt, repo: c.tgtRepo}
+	} else {
+		c.tgtEP = &endpoint{dir: e.TempDir()}
 	}
 	// registry features
+	seenReg := map[*regmodel.Reg]bool{}
 	for _, r := range []*regmodel.Reg{c.src, c.tgt} {
+		if r == nil || seenReg[r] {
+			continue
+		}
+		seenReg[r] = true
 		r.K.Referrers = e.Choose("gen", 2, "refapi") == 0
 		r.K.Mount = e.Choose("gen", 3, "mount")
 		r.K.NoHeadDigest = e.Choose("gen", 4, "noheaddigest") == 3
@@ -112,7 +217,7 @@ func genCopyCase(e *core.Env, o copyGenOpts) *copyCase {
 			r.K.NoHeadDigest = false
 		}
 	}
-	c.gr.Install(c.src, c.srcRepo, c.tag)
+	c.srcEP.install(c.gr, c.tag, false)
 	// external layers are served by a third host
 	c.ext = &extHost{data: map[string][]byte{}, gets: map[string]int{}}
 	for _, n := range c.gr.AllNodes() {
@@ -161,31 +266,31 @@ func genCopyCase(e *core.Env, o copyGenOpts) *copyCase {
 		case 5:
 			// the image was copied earlier without referrers / digest-tags
 			c.preState = "complete-plain"
-			c.gr.InstallPlain(c.tgt, c.tgtRepo, c.tgtTag)
+			c.tgtEP.install(c.gr, c.tgtTag, true)
 		case 0:
 			c.preState = "empty"
 		case 1, 2:
 			c.preState = "partial"
-			rp := c.tgt.Repo(c.tgtRepo)
 			for _, n := range c.gr.AllNodes() {
 				for _, b := range append(append([]*gen.Blob{}, n.Blobs...), n.BlobKids...) {
 					if b.Hosted && !b.External && e.Choose("gen", 3, "preblob") == 1 {
-						rp.Blobs[b.Desc.Digest] = b.Data
+						c.tgtEP.putBlob(b.Desc.Digest, b.Data)
 					}
 				}
 				if n != c.gr.Root && e.Choose("gen", 4, "preman") == 1 {
-					rp.Manifests[n.Digest] = &regmodel.Manifest{MediaType: n.MediaType, Raw: n.Raw}
+					c.tgtEP.putManifest(n)
 				}
 			}
 		case 3:
 			c.preState = "stale-tag"
 			other := gen.New(e.Tape)
 			other.MaxBlob = 50
+			other.NoExt = true
 			og := other.Graph(gen.Opts{NoReferrers: true, NoDigestTags: true})
-			og.Install(c.tgt, c.tgtRepo, c.tgtTag)
+			c.tgtEP.install(og, c.tgtTag, false)
 		case 4:
 			c.preState = "complete"
-			c.gr.Install(c.tgt, c.tgtRepo, c.tgtTag)
+			c.tgtEP.install(c.gr, c.tgtTag, false)
 		}
 	} else {
 		c.preState = "source"
@@ -194,15 +299,58 @@ func genCopyCase(e *core.Env, o copyGenOpts) *copyCase {
 			other := gen.New(e.Tape)
 			other.MaxBlob = 50
 			og := other.Graph(gen.Opts{NoReferrers: true, NoDigestTags: true})
-			og.Install(c.tgt, c.tgtRepo, c.tgtTag)
+			c.tgtEP.install(og, c.tgtTag, false)
 		}
 	}
 	c.snapshot()
+	if c.tgtEP.isLayout() || c.srcEP.isLayout() {
+		root := c.tgtEP.dir
+		if root == "" {
+			root = c.srcEP.dir
+		}
+		c.disk = &simos.Disk{Root: root}
+		simos.Use(c.disk)
+	}
 	return c
+}
+
+// done must be deferred by every harness using a copy case.
+func (c *copyCase) done() {
+	if c.disk != nil {
+		simos.Use(nil)
+	}
+}
+
+func looksLikeManifest(b []byte) bool {
+	if len(b) == 0 || b[0] != '{' {
+		return false
+	}
+	var p struct {
+		SchemaVersion int    `json:"schemaVersion"`
+		MediaType     string `json:"mediaType"`
+	}
+	if json.Unmarshal(b, &p) != nil {
+		return false
+	}
+	return p.SchemaVersion > 0 && (strings.Contains(p.MediaType, "manifest") || strings.Contains(p.MediaType, "index") || p.MediaType == "")
 }
 
 func (c *copyCase) snapshot() {
 	c.preMan, c.preBlob, c.preTags = map[string]bool{}, map[string]bool{}, map[string]string{}
+	if c.tgtEP.isLayout() {
+		for _, alg := range []string{"sha256", "sha512"} {
+			ents, _ := os.ReadDir(filepath.Join(c.tgtEP.dir, "blobs", alg))
+			for _, en := range ents {
+				d := alg + ":" + en.Name()
+				c.preBlob[d] = true
+				if b, err := os.ReadFile(filepath.Join(c.tgtEP.dir, "blobs", alg, en.Name())); err == nil && looksLikeManifest(b) {
+					c.preMan[d] = true
+				}
+			}
+		}
+		c.preTags = oracle.TagSnapshot(c.tgtEP.dir)
+		return
+	}
 	if rp := c.tgt.Repos[c.tgtRepo]; rp != nil {
 		for d := range rp.Manifests {
 			c.preMan[d] = true
@@ -216,26 +364,93 @@ func (c *copyCase) snapshot() {
 	}
 }
 
+// watch starts recording the writes that reach the target.
+func (c *copyCase) watch() {
+	if !c.tgtEP.isLayout() {
+		j0 := len(c.tgt.Journal)
+		_ = j0
+		c.tgt.OnWrite = func(w regmodel.Write) {
+			if w.Repo == c.tgtRepo {
+				c.writes = append(c.writes, wev{Seq: w.Seq, Kind: w.Kind, Digest: w.Digest, Tag: w.Tag})
+			}
+		}
+		c.tgt.OnManifestPut = func(seq int, repo, ref, dig string, raw []byte) {
+			if repo == c.tgtRepo && c.onManifest != nil {
+				c.onManifest(seq, dig, raw)
+			}
+		}
+		return
+	}
+	dir := c.tgtEP.dir
+	lastTags := oracle.TagSnapshot(dir)
+	c.disk.OnMutation = func(en simos.Entry) {
+		p := en.Abs
+		if en.Op == "rename" {
+			p = en.Abs2
+		}
+		if !strings.HasPrefix(p, dir+"/") {
+			return
+		}
+		rel := strings.TrimPrefix(p, dir+"/")
+		switch {
+		case en.Op == "rename" && strings.HasPrefix(rel, "blobs/"):
+			parts := strings.Split(rel, "/")
+			if len(parts) != 3 {
+				return
+			}
+			d := parts[1] + ":" + parts[2]
+			b, _ := os.ReadFile(p)
+			if looksLikeManifest(b) {
+				if c.onManifest != nil {
+					c.onManifest(en.Mut, d, b)
+				}
+				c.writes = append(c.writes, wev{Seq: en.Mut, Kind: "manifest", Digest: d})
+			} else {
+				c.writes = append(c.writes, wev{Seq: en.Mut, Kind: "blob", Digest: d})
+			}
+		case en.Op == "rename" && rel == "index.json":
+			now := oracle.TagSnapshot(dir)
+			var ts []string
+			for t := range now {
+				ts = append(ts, t)
+			}
+			sort.Strings(ts)
+			for _, t := range ts {
+				if lastTags[t] != now[t] {
+					c.writes = append(c.writes, wev{Seq: en.Mut, Kind: "tag", Digest: now[t], Tag: t})
+				}
+			}
+			for t, d := range lastTags {
+				if _, ok := now[t]; !ok {
+					c.writes = append(c.writes, wev{Seq: en.Mut, Kind: "del-tag", Digest: d, Tag: t})
+				}
+			}
+			lastTags = now
+		case en.Op == "remove" && strings.HasPrefix(rel, "blobs/"):
+			c.writes = append(c.writes, wev{Seq: en.Mut, Kind: "del-file", Digest: rel})
+		}
+	}
+}
+
 func (c *copyCase) refs() (ref.Ref, ref.Ref) {
-	s, err := ref.New(c.src.Name + "/" + c.srcRepo + ":" + c.tag)
-	if err != nil {
-		panic(err)
+	return mustRef(c.srcEP.refStr(c.tag)), mustRef(c.tgtEP.refStr(c.tgtTag))
+}
+
+func feat(r *regmodel.Reg) string {
+	if r == nil {
+		return "layout"
 	}
-	t, err := ref.New(c.tgt.Name + "/" + c.tgtRepo + ":" + c.tgtTag)
-	if err != nil {
-		panic(err)
-	}
-	return s, t
+	return fmt.Sprintf("%+v", r.K)
 }
 
 func (c *copyCase) describe() map[string]any {
 	return map[string]any{"pairing": c.pairing, "pre_state": c.preState, "options": c.optNames, "image": c.gr.Describe(),
-		"src_features": fmt.Sprintf("%+v", c.src.K), "tgt_features": fmt.Sprintf("%+v", c.tgt.K),
+		"src_features": feat(c.src), "tgt_features": feat(c.tgt),
 		"client": fmt.Sprintf("chunk=%d maxput=%d retry=%d concurrent=%d cache=%v", c.w.Chunk, c.w.MaxPut, c.w.RetryLimit, c.w.Concurrent, c.w.Cache)}
 }
 
 func (c *copyCase) key() string {
-	return fmt.Sprintf("%s|%s|%v|%s|%s|%+v|%+v", c.pairing, c.preState, c.optNames, c.gr.Root.Digest, c.gr.Shape, c.src.K, c.tgt.K)
+	return fmt.Sprintf("%s|%s|%v|%s|%s|%s|%s", c.pairing, c.preState, c.optNames, c.gr.Root.Digest, c.gr.Shape, feat(c.src), feat(c.tgt))
 }
 
 // trusted implements the statement's "a target manifest that already equals
@@ -252,8 +467,8 @@ func (c *copyCase) trusted(d string, root bool) bool {
 
 // checkComplete is the C03 oracle; it is evaluated only after a nil return.
 func (c *copyCase) checkComplete(e *core.Env) {
-	srcS := oracle.RegStore{Reg: c.src, Repo: c.srcRepo}
-	tgtS := oracle.RegStore{Reg: c.tgt, Repo: c.tgtRepo}
+	srcS := c.srcEP.store()
+	tgtS := c.tgtEP.store()
 	got, ok := tgtS.Tag(c.tgtTag)
 	if !ok || got != c.gr.Root.Digest {
 		e.Violation("tag", "target-tag-wrong", "copy returned nil but %s:%s resolves to %q, source digest %s", tgtS.Name(), c.tgtTag, got, c.gr.Root.Digest)
@@ -317,12 +532,12 @@ func classify(s string) string {
 }
 
 type extAware struct {
-	oracle.RegStore
+	oracle.Store
 	ext *extHost
 }
 
 func (x extAware) Blob(d string) ([]byte, bool) {
-	if b, ok := x.RegStore.Blob(d); ok {
+	if b, ok := x.Store.Blob(d); ok {
 		return b, ok
 	}
 	b, ok := x.ext.data[d]
@@ -341,22 +556,16 @@ func init() {
 
 func runC03(e *core.Env) {
 	c := genCopyCase(e, copyGenOpts{})
+	defer c.done()
 	// C03 quantifies over inputs, configurations and schedules, not faults: the network is fault-free here
 	// (transient faults during a copy are C12's business, fault positions C04's)
-	faulty := false
 	rc := c.w.Client()
 	s, t := c.refs()
 	e.SetCase(c.key(), true, c.describe())
-	simrt.Event("ImageCopy %s -> %s opts=%v pre=%s", s.CommonName(), t.CommonName(), c.optNames, c.preState)
+	simrt.Event("ImageCopy %s -> %s opts=%v pre=%s", c.pairing, c.tgtTag, c.optNames, c.preState)
 	err := rc.ImageCopy(context.Background(), s, t, c.opts...)
 	simrt.Event("ImageCopy returned %v", err)
 	drainTasks(e, 20)
-	for k, v := range c.w.Net.Fired {
-		e.ProbeN("fault:"+k, 0)
-		for i := 0; i < v; i++ {
-			e.Fault(k)
-		}
-	}
 	e.Probe("pairing:" + c.pairing)
 	e.Probe("pre:" + c.preState)
 	e.Probe("shape:" + c.gr.Shape)
@@ -364,20 +573,11 @@ func runC03(e *core.Env) {
 		e.Probe("opt:" + o)
 	}
 	if err != nil {
-		if !faulty {
-			// the property is conditional on success, but a fault-free copy of a
-			// well-formed image that fails would make the check vacuous
-			e.Probe("copy-failed-faultfree")
-			e.Info("failed", 1)
-			simrt.Event("fault-free copy failed: %v", err)
-			e.Violation("vacuity", "faultfree-copy-failed", "fault-free copy failed (%s, %s, %v): %v", c.pairing, c.preState, c.optNames, err)
-		} else {
-			e.Probe("copy-failed-under-faults")
-		}
+		// the property is conditional on success, but a fault-free copy of a
+		// well-formed image that fails would make the check vacuous
+		e.Violation("vacuity", "faultfree-copy-failed", "fault-free copy failed (%s, %s, %v): %v", c.pairing, c.preState, c.optNames, err)
 		return
 	}
 	e.Probe("copy-ok")
 	c.checkComplete(e)
 }
-
-var _ = time.Second
